@@ -186,6 +186,8 @@ type fidCase struct {
 	diffs  []string
 	names  []string
 	tops   []string
+	win    bool // Windows-console framing with one late acknowledgement (c01win.go)
+	winObs string
 }
 
 func (fc *fidCase) String() string { return fc.desc }
@@ -246,6 +248,11 @@ func genFidelity(c *ctx) {
 		if fc.big && fc.chunk > 0 && fc.chunk < 100 {
 			fc.chunk = 100 // megabytes in 1-2 byte reads through pipes (and relays) do not finish within the harness deadline
 		}
+		if fc.cfg.overwrite && fc.shape == 0 && fc.chunk > 0 && fc.chunk < 100 {
+			// these cases get the 300-400 KB resume.bin added below: the same limit applies (group seed
+			// 44444: download, 2 relays, 1-2 byte reads ran into the 40 s deadline on the unchanged tree)
+			fc.chunk = 100
+		}
 		// corner configurations that are always part of the run, whatever the random draw
 		switch i {
 		case 0: // legacy protocol 1, binary upload, 16k chunks of bytes the table escapes (escaped chunk > bufsize)
@@ -260,8 +267,14 @@ func genFidelity(c *ctx) {
 		case 4, 5, 6: // -d -y onto the remains of an earlier attempt, legacy protocols and the current one
 			fc.cfg.upload, fc.cfg.proto, fc.cfg.overwrite, fc.cfg.directory, fc.cfg.relays, fc.cfg.tunnel = i != 5, []int{2, 0, -1}[i-4], true, true, 0, false
 			fc.shape, fc.chunk = 1, 0
+		case 7, 8: // Windows-console framing ("!\n", readLineOnWindows on the client), one late ack: frames are re-split
+			fc.cfg = e2eCfg{upload: i == 7, proto: -1, bufsize: "64k", compress: "no", timeout: 10, quiet: true, deadline: 40 * time.Second}
+			fc.shape, fc.big, fc.chunk, fc.win = 0, false, 0, true
 		}
 		fc.desc = fmt.Sprintf("%s shape=%d big=%v rechunk=%d seed=%d", describeCfg(fc.cfg), fc.shape, fc.big, fc.chunk, fc.seed)
+		if fc.win {
+			fc.desc += " windows-framing(trigger id ..10, client lines read as a Windows console would, 10th ack 2.3 s late)"
+		}
 		cases[i] = fc
 	}
 	parallelDo(n, 24, func(i int) {
@@ -320,6 +333,17 @@ func genFidelity(c *ctx) {
 				})
 			}
 		}
+		if fc.win {
+			p := filepath.Join(root, "s", "win-2MiB.bin")
+			os.MkdirAll(filepath.Dir(p), 0755)
+			os.WriteFile(p, fillBytes(rng, 2<<20, 0), 0644)
+			fc.tops = []string{p}
+			peer := &c01WinPeer{ackDir: dirS2C, lateAck: 10, delay: 2300 * time.Millisecond}
+			if !fc.cfg.upload {
+				peer.ackDir = dirC2S
+			}
+			fc.cfg.hook = peer.hook
+		}
 		if fc.chunk > 0 {
 			var mu sync.Mutex
 			crng := rand.New(rand.NewSource(fc.seed + 1))
@@ -344,6 +368,14 @@ func genFidelity(c *ctx) {
 		}
 		fc.result = runTransfer(fc.cfg, fc.tops, dest)
 		r := fc.result
+		if fc.win {
+			w := r.wire[1]
+			if fc.cfg.upload {
+				w = r.wire[0]
+			}
+			shrunk, n := c01WinShrinkObserved(w)
+			fc.winObs = fmt.Sprintf("shrink-observed=%v data-lines=%d", shrunk, n)
+		}
 		// names shown to the user
 		shown := r.serverOut
 		if !fc.cfg.upload {
@@ -386,8 +418,15 @@ func genFidelity(c *ctx) {
 		c.count(fmt.Sprintf("shape:%d", fc.shape))
 		c.count(fmt.Sprintf("relays:%d", fc.cfg.relays))
 		c.count(fmt.Sprintf("tunnel:%v", fc.cfg.tunnel))
+		if fc.win {
+			c.count("windows-framing:" + fc.winObs)
+		}
 		if len(fc.diffs) > 0 {
 			key := "fidelity:" + strings.SplitN(fc.diffs[0], ":", 2)[0]
+			if fc.win {
+				key = "fidelity:windows-framing:" + strings.SplitN(fc.diffs[0], ":", 2)[0]
+				fc.diffs = append(fc.diffs, fc.winObs)
+			}
 			c.violate(key, "end-to-end transfer over a fault-free transport did not reproduce the source",
 				fc.desc+" :: "+strings.Join(fc.diffs, "; "))
 		}
